@@ -1,8 +1,8 @@
 #!/bin/sh
 # developer helper: instrument + build the worker into bin/worker (not used by registered checks)
-cd /verif || exit 2
+cd "$(dirname "$0")" || exit 2
 export GOFLAGS=-mod=mod GOPROXY=off GOSUMDB=off GOTOOLCHAIN=local GOWORK=off GODEBUG=goindex=0
 (cd instr && go build -o ../bin/instr .) || exit 2
 rm -rf /dev/shm/verif-dev && mkdir -p /dev/shm/verif-dev
-bin/instr -out /dev/shm/verif-dev github.com/olive-io/bpmn/v2 github.com/olive-io/bpmn/v2/pkg/... github.com/olive-io/bpmn/v2/model github.com/muyo/sno github.com/muyo/sno/internal verif/harness/... || exit 2
+bin/instr -out /dev/shm/verif-dev -rt "$(pwd)/rt" -dir "$(pwd)" github.com/olive-io/bpmn/v2 github.com/olive-io/bpmn/v2/pkg/... github.com/olive-io/bpmn/v2/model github.com/muyo/sno github.com/muyo/sno/internal verif/harness/... || exit 2
 go build -overlay /dev/shm/verif-dev/overlay.json -o bin/worker ./harness/cmd/worker
